@@ -36,13 +36,14 @@ enum Op {
   OP_PREINIT_CALL,     // a: function index; executed only while the client's registry has no selection
   OP_EXIT_HERE,        // fork; the copy calls exit(0): static destruction on this registry state
   OP_WALK_UNSUP,       // every undocumented evaluator of the current solution (stratified API walk, enumeration)
+  OP_FRESH,            // re-evaluate recent evaluations of the current instance in a fresh process (same parameters)
   OP__COUNT
 };
 static const char* const g_opnames[OP__COUNT] = {
     "INIT", "SELECT", "LIST", "GET_NAME", "GET_DIM", "PRINTID", "SET", "GET", "SET_UNKNOWN", "GET_UNKNOWN",
     "INIT_PARAM", "PURGE", "SANITY", "DISPLAY_PARAM", "DISPLAY_VEC", "SET_VEC", "GET_VEC", "GET_VEC_UNKNOWN",
     "SET_VEC_UNKNOWN", "EVAL", "EVAL_SUP", "EVAL_UNSUP", "PASS_FUNC", "MIRROR", "TWIN", "AUDIT", "SWEEP",
-    "SELECT_UNKNOWN", "INIT_UNKNOWN", "PREINIT_CALL", "EXIT_HERE", "WALK_UNSUP"};
+    "SELECT_UNKNOWN", "INIT_UNKNOWN", "PREINIT_CALL", "EXIT_HERE", "WALK_UNSUP", "FRESH"};
 
 struct Step {
   int op = OP_LIST;
